@@ -85,6 +85,8 @@ func shapeModel(shape string, ids []string) []string {
 }
 
 var jsShapes = map[string]string{
+	// a "create entities" transform: appends one derived entity per input entity to the array it was given and returns it
+	"pushderived": `function transform_entities(entities) { var n = entities.length; for (var i = 0; i < n; i++) { var e = entities[i]; var d = NewEntity(); SetId(d, GetId(e).replace(":e", ":d")); d["Properties"]["from"] = GetId(e); entities.push(d); } return entities; }`,
 	"identity": `function transform_entities(entities) { return entities; }`,
 	"dropeven": `function transform_entities(entities) { var r = []; for (e of entities) { var id = GetId(e); var n = parseInt(id.substring(id.indexOf(":e")+2)); if (n % 2 == 1) { r.push(e); } } return r; }`,
 }
@@ -204,7 +206,22 @@ func c10Run(cfg C10Config) (viol []engine.Violation, outcome string, herr string
 		wantFeed = append(wantFeed, id)
 	}
 	got := sinkFeed()
-	if strings.Join(got, ",") != strings.Join(wantFeed, ",") {
+	if cfg.Shape == "pushderived" {
+		// originals and one derived entity each, every one exactly once (the order depends on how a batch is chunked)
+		cnt := map[string]int{}
+		for _, id := range got {
+			cnt[id]++
+		}
+		bad := len(got) != 2*len(ids)
+		for _, id := range ids {
+			if cnt[id] != 1 || cnt["d"+strings.TrimPrefix(id, "e")] != 1 {
+				bad = true
+			}
+		}
+		if bad {
+			fail("sink-set", fmt.Sprintf("sink received %v, want every source entity and its derived entity exactly once", got))
+		}
+	} else if strings.Join(got, ",") != strings.Join(wantFeed, ",") {
 		fail("sink-order", fmt.Sprintf("sink received %v, want %v (transform output in source order)", got, wantFeed))
 	}
 	// identity = plain copy
@@ -268,7 +285,7 @@ func init() {
 	})
 
 	engine.RegisterCheck("C10", func(r *engine.Run) {
-		r.Rule = "ENUM: every (entity count n, batch size, parallelism) in the stated box x {incremental, fullsync} x transform shape {identity, drop, duplicate, create} with a recording Transform double on the real pipeline/source/sink, plus the real JavascriptTransform on a sub-box; each configuration is one execution judged by: every source entity handed to the transform exactly once, sink feed = transform output in source order, identity = plain copy, second run adds nothing, no panic. distinct = distinct (configuration outcome) digests"
+		r.Rule = "ENUM: every (entity count n, batch size, parallelism) in the stated box x {incremental, fullsync} x transform shape {identity, drop, duplicate, create} with a recording Transform double on the real pipeline/source/sink, plus the real JavascriptTransform (identity, filter, and a transform that appends derived entities to its input array) on a sub-box; each configuration is one execution judged by: every source entity handed to the transform exactly once, sink feed = transform output in source order, identity = plain copy, second run adds nothing, no panic. distinct = distinct (configuration outcome) digests"
 		r.Assumptions = []string{"worker goroutines of the incremental pipeline run under the Go scheduler (results are merged by worker index, so the outcome is schedule independent)", "larger values than the box are outside (no sampling)"}
 		maxN, maxB, maxP := 24, 25, 12
 		if !r.Quick() {
@@ -300,7 +317,7 @@ func init() {
 		if !r.Quick() {
 			jsN, jsB, jsP = 12, 7, 6
 		}
-		for _, shape := range []string{"identity", "dropeven"} {
+		for _, shape := range []string{"identity", "dropeven", "pushderived"} {
 			for n := 0; n <= jsN; n++ {
 				for b := 1; b <= jsB; b++ {
 					for p := 1; p <= jsP; p++ {
